@@ -97,6 +97,13 @@ CLAIMED = {
     note="Level 'other'. The suite's own byte comparison of derived vs generated keys covers t1 on its samples; tr (ignored by serialisation) is what this check decides exactly. Trusted: abstract interpreter soundness, hash model.",
     technique="abstract interpretation over monomorphic MIR with exact-copy provenance tags on byte arrays, hash absorb-list probes, obligation discharge under key-producer composition",
     engine="driver-ai"),
+ "C01": dict(
+    category="other",
+    text="Necessary conditions of completeness, each decided for all keys/messages/contexts/generator outputs of its class: A1 signer and verifier format M' identically and as FIPS prescribes in all four modes (C06 rules on both sides); A2 no early rejection: for verify / hash_verify x 3 / _internal_verify, every context-length class {0}, [1,254], {255} and every public-key provenance (deserialised, generated, derived) the abstract result over arbitrary signatures is not definitely false, and signing with ctx in [0,255] is definitely Ok for deserialised and generated keys (a definitely-rejected class would reject every honest signature of it); A3 the path condition at sigEncode bounds ||z|| by gamma1-beta-1 and the hint weight by omega with exactly the FIPS thresholds, the may-accept partition of verify_internal requires exactly ||z|| <= gamma1-beta-1, HintBitUnpack accepts all canonical encodings of weight up to and including omega, BitUnpack(gamma1-1,gamma1) is total; A4 both sides hash mu|w1Encode(.) of the same length and use lambda/4 bytes; A5 UseHint, Decompose/HighBits/LowBits, MakeHint equal their FIPS definitions on the whole domain (C15 engine) so the FIPS hint lemma applies. The ring identity behind w1' = w1 - hence acceptance itself - is not decided.",
+    design_ref="DESIGN.md §4 C01",
+    note="Level 'other': a definitely-false class or a signer/verifier bound disagreement is a proof of a C01 violation; their absence is not a proof of completeness. Quick = ML-DSA-44, thorough = all sets.",
+    technique="abstract interpretation over monomorphic MIR: definite-result input classes, absorb-list agreement of sibling entry points, path facts on tracked call results (emit / accept conditions), decoder classes; piecewise-affine kernel exactness",
+    engine="driver-ai"),
  "C08": dict(
     category="other",
     text="Clauses decided statically. R1: HintBitUnpack run on 78 (x3 sets) abstract input classes generated from (k, omega) - count above omega, count below the running index (every polynomial, two prefix shapes and the boundary member), non-increasing / repeated positions, non-zero unused bytes, each at first/middle/last position - every member of an error class is definitely rejected, every member of a canonical class definitely accepted. R2: encoder and decoder of sig/pk/sk use identical byte ranges that tile [0, LEN) and equal the FIPS 204 layout. R3: BitUnpack accepts exactly [-a, b] for every (a, b) in use (total when a+b+1 is a power of two). Not decided: re-encode identity for every accepted byte string and the bit-level bijection.",
@@ -141,7 +148,7 @@ man = {
  "engines": [
    {"name": "cfg-matrix", "path": "checks/c17.py", "serves_properties": ["C17"], "kind_free_text": "feature-configuration matrix: rustc lints + MIR fingerprints"},
    {"name": "driver-facts", "path": "driver/src/facts.rs", "serves_properties": ["C16", "C17"], "kind_free_text": "type/layout/drop-glue/call-graph facts"},
-   {"name": "driver-ai", "path": "driver/src/ai/", "serves_properties": ["C02", "C03", "C04", "C11", "C06", "C07", "C08", "C10", "C12", "C13", "C14", "C15", "C18"], "kind_free_text": "abstract interpreter over monomorphic MIR"},
+   {"name": "driver-ai", "path": "driver/src/ai/", "serves_properties": ["C01", "C02", "C03", "C04", "C11", "C06", "C07", "C08", "C10", "C12", "C13", "C14", "C15", "C18"], "kind_free_text": "abstract interpreter over monomorphic MIR"},
    {"name": "driver", "path": "driver/", "serves_properties": sorted(CLAIMED), "kind_free_text": "rustc_private driver over type-checked monomorphic MIR (facts, call graph, abstract interpretation)"},
  ],
  "checks": checks,
